@@ -335,7 +335,29 @@ class Evaluator(object):
         return form.apply("call:" + (rname or norm(node.func)), flat, kwargs)
 
     def ev_ListComp(self, node, path):
-        return form.apply("expr:" + norm(node), [])
+        """[f(x) for x in seq if c] -> map(f(elem(seq)), seq, c...) ; anything else is opaque."""
+        if len(node.generators) != 1 or node.generators[0].is_async:
+            return form.apply("expr:" + norm(node), [])
+        g = node.generators[0]
+        seq = self.ev(g.iter, path)
+        if isinstance(seq, list):
+            seq = form.apply("pylist", [tuple(seq)]) if all(isinstance(x, Rat) for x in seq) else None
+        if not isinstance(seq, Rat):
+            return form.apply("expr:" + norm(node), [])
+        saved = dict(path.env)
+        rec = self.record
+        self.record = False
+        try:
+            self.assign(g.target, _loop_value_comp(g.target, seq), path)
+            body = self.ev(node.elt, path)
+            conds = [self.ev(c, path) for c in g.ifs]
+        finally:
+            path.env.clear()
+            path.env.update(saved)
+            self.record = rec
+        if not isinstance(body, Rat) or not all(isinstance(c, Rat) for c in conds):
+            return form.apply("expr:" + norm(node), [])
+        return form.apply("map", [body, seq] + conds)
 
     ev_GeneratorExp = ev_ListComp
     ev_Lambda = ev_ListComp
@@ -490,10 +512,54 @@ class Evaluator(object):
                 self.iter_tag.pop()
             self.loop_stack.pop()
             return live + done
+        if isinstance(st, ast.While) and self.loop_mode in ("body_once", "unroll2"):
+            c = self.ev(st.test, path)
+            if not isinstance(c, Rat):
+                c = form.apply("expr:" + norm(st.test), [])
+            self.loops.append({"node": st, "iter": c, "path": path, "conds": list(path.conds)})
+            marker = (c, True)
+            path.conds.append(marker)
+            n_iter = 2 if self.loop_mode == "unroll2" else 1
+            live, done = [path], []
+            self.loop_stack.append(st)
+            for k in range(n_iter):
+                self.iter_tag.append(k + 1)
+                nxt = []
+                for p in live:
+                    for q_ in self.exec_block(st.body, [p]):
+                        if q_.ctrl == "break":
+                            q_.ctrl = None
+                            done.append(q_)
+                        else:
+                            q_.ctrl = None
+                            nxt.append(q_)
+                live = nxt
+                self.iter_tag.pop()
+            self.loop_stack.pop()
+            for p in live + done:
+                if marker in p.conds:
+                    p.conds.remove(marker)
+            return live + done
         if isinstance(st, (ast.For, ast.While)):
             raise Undecided("loop at line %d" % st.lineno)
         if isinstance(st, ast.Try):
-            raise Undecided("try at line %d" % st.lineno)
+            exc = form.apply("exception", [Rat.const(st.lineno)])
+            pre = path.fork()
+            body_live = self.exec_block(st.body + st.orelse, [path])
+            h_live = []
+            for h in st.handlers:
+                ph = pre.fork()
+                ph.conds.append((exc, True))
+                for r_ in self.exec_block(h.body, [ph]):
+                    if (exc, True) in r_.conds:
+                        r_.conds.remove((exc, True))
+                    h_live.append(r_)
+            live = body_live + h_live
+            if self.merge_ifs and len(body_live) == 1 and len(h_live) == 1 and body_live[0].ctrl == h_live[0].ctrl:
+                live = [self._merge(pre, exc, h_live[0], body_live[0])]
+            if st.finalbody:
+                live = self.exec_block(st.finalbody, live)
+            return live
         if isinstance(st, (ast.FunctionDef, ast.ClassDef)):
             return [path]
         raise Undecided("statement %s" % type(st).__name__)
@@ -569,10 +635,21 @@ def _loop_value(st, it, tag=""):
     if at is not None and at.func == "call:enumerate" and isinstance(st.target, ast.Tuple) and len(st.target.elts) == 2 \
             and isinstance(at.args[0], Rat):
         idx = mk(st.target.elts[0])
-        return [idx, form.apply("getitem", [at.args[0], idx])]
+        return [idx, form.apply("elem" + tag, [at.args[0]])]
     if at is not None and at.func != "call:range" and isinstance(st.target, ast.Name):
         return form.apply("elem" + tag, [it])
     return mk(st.target)
+
+
+def _loop_value_comp(target, seq):
+    at = seq.as_atom()
+    if at is not None and at.func == "call:range" and isinstance(target, ast.Name):
+        return Rat.sym(target.id)
+    if isinstance(target, ast.Name):
+        return form.apply("elem", [seq])
+    if isinstance(target, (ast.Tuple, ast.List)):
+        return [form.apply("elem%d" % i, [seq]) for i, _ in enumerate(target.elts)]
+    return form.apply("elem", [seq])
 
 
 def _as_load(t):
